@@ -55,6 +55,8 @@ class TypeParser:
         self.aliases = aliases or {}   # qualified alias -> type string
 
     def parse(self, s):
+        if s.startswith('(lambda at ') or '(lambda at ' in s:
+            return ('opaque', s)
         self.toks = tokenize(s)
         self.i = 0
         t = self._type()
